@@ -122,6 +122,31 @@ def c20(tier, seed):
             for h, n, av, v in ch:
                 obs.add_viol('headers:%s+%s:%s:name-changed:%s:%s' % (a, b, lang, h, n), describe(h, n, av, v))
                 pair_bad.setdefault((a, b), set()).add('name:' + n)
+        # step 2b: which byte-order helper set a unit gets must not depend on what was included before avtp/Byteorder.h - also on a
+        # big-endian target.  The selection is made by the preprocessor, so it is observed here by compiling the same units with the
+        # compiler's byte-order macro overridden (the probe then runs the big-endian helper set on this host).
+        BO = 'avtp/Byteorder.h'
+        BEF = ['-U__BYTE_ORDER__', '-D__BYTE_ORDER__=__ORDER_BIG_ENDIAN__']
+        if BO in ok_headers:
+            st0, res0, raw0 = R.build_run([BO], {BO: infos[BO]}, 'c', formats, extra_flags=BEF)
+            if st0 == 'ok':
+                alone_be = {n: v for (hh, n), v in res0.items() if hh == BO and n.startswith('probe:')}
+
+                def be_run(job):
+                    a, b = job
+                    st, res, raw = R.build_run([a, b], infos, 'c', formats, extra_flags=BEF)
+                    return job, st, res, raw
+                be_jobs = [(h, BO) for h in ok_headers if h != BO] + [(BO, h) for h in ok_headers if h != BO]
+                for (a, b), st, res, raw in vlib.run_parallel(be_run, be_jobs):
+                    evals += 1
+                    if st != 'ok':
+                        continue          # compile problems of the pair are reported by step 2
+                    distinct += 1
+                    for (hh, n), v in res.items():
+                        if hh == BO and n in alone_be and alone_be[n] != v:
+                            obs.add_viol('headers:%s+%s:c:byte-order-macro-big-endian:name-changed:%s:%s' % (a, b, BO, n), dict(alone=alone_be[n], combined=v, order=[a, b]))
+            else:
+                obs.notes.append('big-endian-macro variant of avtp/Byteorder.h alone did not build: ' + str(res0)[:120])
         # step 3: larger sets (all headers in several orders; random subsets in the thorough tier)
         rng = random.Random(int(seed))
         sets = []
